@@ -678,6 +678,14 @@ func (c *wsConn) setToken(token json.RawMessage, tid string) {
 }
 
 func (c *wsConn) Access(s *Subscription, cb func(*rescache.Access)) {
+	// A throttled access request may be released after the connection was closed
+	c.mu.Lock()
+	disposing := c.disposing
+	c.mu.Unlock()
+	if disposing {
+		cb(&rescache.Access{Error: reserr.ErrDisposing})
+		return
+	}
 	c.serv.cache.Access(s, c.token, false, func(access *rescache.Access, _ *codec.Meta) {
 		cb(access)
 	})
